@@ -39,7 +39,7 @@ func main() {
 		src, _ := render(g.Prog, lay)
 		os.Stdout.Write(src)
 		res := runSource(src, k%2)
-		fmt.Printf("\n-- load=%q top=%q scen=%v\n", res.LoadErr, res.TopErr, res.Scen)
+		fmt.Printf("\n-- load=%q top=%q scen=%v\n-- data stack %d +%d\n", res.LoadErr, res.TopErr, res.Scen, res.RegSize, res.RegGrown)
 		for _, l := range g.Lines {
 			fmt.Printf("-- %s %+v spec=%d impl=%d\n", l.What, l.Src, l.SpecTok(), l.ImplTok())
 		}
